@@ -263,6 +263,12 @@ func c16Uci(args []string) int {
 			continue
 		}
 		if strings.HasPrefix(strings.TrimSpace(line), "go") || strings.HasPrefix(strings.TrimSpace(line), "perft") {
+			// the engine stays responsive while the search (or perft) the line started is running
+			if out, pan, hung := uciCommand(u, "isready"); pan || hung || !strings.Contains(out, "readyok") {
+				rep.Violate("isready-not-answered", in, fmt.Sprintf("isready sent while the command was still being carried out: panic=%v hung=%v output=%q", pan, hung, out))
+				u = uci.NewUciHandler()
+				continue
+			}
 			uciCommand(u, "stop")
 			u.VerifSearch().WaitWhileSearching()
 		}
